@@ -15,15 +15,17 @@ def fill(P):
       "independent statement of the rules is a bounded small-scope exhaustive run of the real code.",
       "", "DESIGN.md 4-C02")
     P("C04", "other",
-      "contract-based deductive verification (validate_score_vector, scoring loops, elect_cands_from_set_ranking) + bounded exact-arithmetic oracle",
-      "Loop-invariant contracts on the scoring utilities discharged by SMT; exact positional-score oracle evaluated on small-scope exhaustive profiles (bounded).",
-      "", "DESIGN.md 4-C04")
+      "contract-based deductive verification (validate_score_vector, score_profile_from_rankings with its three nested loops, add_missing_cands, condense_ballots, mentions, elect_cands_from_set_ranking, Plurality/Borda._run_step) + bounded exact-arithmetic oracle",
+      "score_profile_from_rankings is proved for all profiles and exact score vectors: each candidate's score = sum over ballots of weight x the average of the zero-padded vector over its (tied) position, on the ballots completed by add_missing_cands "
+      "(proved) and condensed (proved: every additive per-ranking functional is preserved); Plurality/Borda._run_step are proved against the callee contracts; to_float mode, first_place_votes/borda_scores wrappers and "
+      "score_dict_to_ranking (sorted) are covered by the bounded exact-arithmetic oracle only.",
+      "first_place_votes / score_dict_to_ranking stay assumed contracts inside the step proofs (opaque fpv_of / ranking_of); PreferenceProfile(...) assumed (A-PYD).", "DESIGN.md 4-C04, 8.2")
 
     P("C05", "other",
-      "contract-based deductive verification (GeneralRating constructor/validator raises-iff tables, subclass delegation, score totals loop, elect_cands_from_set_ranking) + bounded run-time contract checks",
-      "Validator loop proved with a forall-ballots invariant (every ballot, exact boundaries); constructor tables proved against the assumed abstract contract of Election.__init__; "
-      "score totals and top-m election via the proved utils contracts; whole elections on small score profiles are a bounded check.",
-      "Election.__init__ and PreferenceProfile(...) are assumed contracts (listed in trusted_base).", "DESIGN.md 4-C05")
+      "contract-based deductive verification (GeneralRating constructor/validator raises-iff tables, subclass delegation, score_profile_from_ballot_scores totals loop, GeneralRating._run_step, elect_cands_from_set_ranking) + bounded run-time contract checks",
+      "Validator loop proved with a forall-ballots invariant (every ballot, exact boundaries); score_profile_from_ballot_scores proved: every candidate's total = sum of weight x score, TypeError iff a ballot has no score card; "
+      "the single round (top m of the previous ranking, tie recorded with a strict order, ValueError iff unbreakable) proved against the proved kernel; whole elections on small score profiles are a bounded check.",
+      "Election._run_election and PreferenceProfile(...) are assumed contracts (listed in trusted_base).", "DESIGN.md 4-C05, 8.2")
 
     P("C01", "other",
       "contract-based deductive verification of the seat-filling kernel (elect_cands_from_set_ranking: exactly m, ValueError iff unbroken straddling tie; constructor tables) + bounded run-time audit of every rule",
@@ -31,26 +33,32 @@ def fill(P):
       "whole counts of all 18 rules is a bounded small-scope exhaustive audit of the real code (labelled bounded).",
       "Election._run_election is an assumed abstract contract inside constructor proofs; whole-run properties are bounded only.", "DESIGN.md 4-C01")
     P("C03", "other",
-      "contract-based deductive verification of STV threshold arithmetic + bounded per-content audit of both transfer functions over every draw",
-      "Droop bound proved; the per-content weight equations of fractional_transfer / random_transfer (every draw enumerated through a scripted random.sample) and "
+      "contract-based deductive verification of fractional_transfer (per-ranking weight equation for all inputs), remove_cand, condense_ballots and the STV threshold arithmetic + bounded per-content audit of both transfer functions over every draw",
+      "fractional_transfer: for every ranking k the transferred weight on k equals the definition (w*(tally-T)/tally on winner-led ballots, w elsewhere); Droop bound proved; random_transfer (every draw enumerated through a scripted random.sample) and "
       "round-to-round conservation are audited on small-scope exhaustive inputs (bounded).",
       "", "DESIGN.md 4-C03")
-    P("C06", "exploration",
-      "bounded run-time contract check (pairwise margins by definition, tiers by brute-force minimal dominating sets)",
-      "No function of C06 is under a discharged contract yet; bounded exhaustive/sampled audit only.", "networkx reachability trusted.", "DESIGN.md 4-C06")
-    P("C11", "exploration",
-      "bounded run-time contract check of Ballot/PreferenceProfile (all orders of <=3 ballots from 12 contents)",
-      "Bounded only at present.", "", "DESIGN.md 4-C11")
-    P("C12", "exploration",
-      "bounded run-time contract check of the ballot-editing utilities (pushforward of the weight view)",
-      "Bounded only at present.", "", "DESIGN.md 4-C12")
+    P("C06", "other",
+      "contract-based deductive verification of head2head_count (nested loop with early exit) + bounded run-time contract check (margins by definition, tiers by brute-force minimal dominating sets)",
+      "head2head_count is proved for all profiles: the total weight of the ballots whose first position listing either candidate lists cand1; compute_pairwise_dict (tuple-keyed dict, max over zip), ballot_fill "
+      "(itertools.permutations) and dominating_tiers (networkx) are outside the verifier's subset: bounded exhaustive/sampled audit only.", "networkx reachability trusted.", "DESIGN.md 4-C06, 8.2")
+    P("C11", "other",
+      "contract-based deductive verification of Ballot.__eq__ and PreferenceProfile.condense_ballots (dict keyed by Ballot modelled as ordered key/value sequences looked up through the proved __eq__) + bounded run-time contract check",
+      "condense_ballots is proved for all profiles: per (ranking, scores) content the written ballots carry exactly the input weight, written ballots are pairwise distinct in content, candidates kept; Ballot.__eq__ is characterised exactly. "
+      "Validators / frozen-ness / derived fields / profile == and + are pydantic- or pandas-mediated: bounded check over all orders of <=3 ballots from 12 contents.",
+      "PreferenceProfile(...) constructor is an assumed contract (A-PYD); idempotence and order-independence of condensing are bounded (they follow mathematically from the proved clauses, no machine-checked lemma).", "DESIGN.md 4-C11, 8.2")
+    P("C12", "other",
+      "contract-based deductive verification of remove_cand (list and str argument on profiles), add_missing_cands and condense_ballots + bounded run-time contract check of all editing utilities",
+      "remove_cand / add_missing_cands are proved as weight-preserving pushforwards: for every ranking k the result carries exactly the weight of the input ballots whose edited ranking is k; "
+      "tuple / single-ballot forms of remove_cand, cleaning.* and expand_tied_ballot (itertools.permutations) are bounded only.", "", "DESIGN.md 4-C12, 8.2")
 
     B = "bounded run-time contract check of the real code (B-SSE), labelled bounded, never counted as proved"
     P("C07", "exploration", "bounded exhaustive evaluation of the solid-coalition axiom on real STV counts (lemma over contracts not finished)",
       "The axiom is evaluated from the input profile only, for every coalition, on small-scope exhaustive profiles.", "Lemma L07 over the C02/C03 contracts is not finished: no proof part.", "DESIGN.md 4-C07")
     P("C08", "exploration", "bounded relational execution (renaming / reordering / splitting / candidate order / PYTHONHASHSEED subprocesses)",
       "Relational check over representation variants and hash seeds on small-scope exhaustive profiles.", "", "DESIGN.md 4-C08")
-    P("C09", "exploration", "bounded query-history check on finished elections of every rule", "Replay vs records, index rules and purity over 12-query histories.", "", "DESIGN.md 4-C09")
+    P("C09", "other", "contract-based deductive verification of the round getters (get_elected/get_eliminated/get_remaining/get_ranking/get_profile) and per-rule frame obligations + bounded query-history check on finished elections of every rule",
+      "Getter results equal the concatenation specs over the recorded rounds, IndexError iff out of range, no store to self; every rule's _run_step stores nothing unless store_states (effect scan; PluralityVeto refuted = known finding); 12-query histories bounded.",
+      "Election._run_step as a function of (profile, state) is assumed for the replay getter; get_status_df (pandas) bounded only.", "DESIGN.md 4-C09")
     P("C10", "other", "contract-based deductive verification of the tie-straddle kernel (elect_cands_from_set_ranking records a tiebreak iff a set straddles the last seat) + bounded multi-seed audit of recorded tiebreaks",
       "The kernel's contract is proved; whole elections are audited under 4 seeds (bounded).", "tiebreak_set's own body is out of the verifier's reach (sorted/dict-of-lists): bounded only.", "DESIGN.md 4-C10")
     P("C13", "other", "contract-based deductive verification of the alias constructors (delegation with the documented arguments, class defines nothing else) + bounded differential check against separately built components",
